@@ -158,17 +158,31 @@ def run_watch(prop, tier, replay=None):
         if not scenarios:
             raise vlib.Broken("replay file has no scenario")
     else:
-        for c in ([] if os.environ.get("VERIF_ALPH_NOMC") else mcs):      # developer switch for mutation self-tests only
-            cfg = "MC_AlphWatcher_%s.cfg" % c
-            r = vlib.tlc(work, "MC_AlphWatcher", cfg, workers=vlib.NCPU, timeout=3000, heap="24g")
-            if not r["ok"] and r["rc"] in (137, 143) and not r["violated"]:
-                r = vlib.tlc(work, "MC_AlphWatcher", cfg, workers=vlib.NCPU, timeout=3000, heap="24g")
-            if not r["ok"]:
-                raise vlib.Broken("TLC did not accept the specification MC_AlphWatcher/%s (spec-level problem, not a code violation):\n%s"
-                                  % (cfg, "\n".join(r["out"].splitlines()[-60:])))
-            mc_states += r["distinct"]
-            mc_trans += r["generated"]
-            print("TLC %s: %d distinct states, %d transitions, depth %d, %.0fs" % (cfg, r["distinct"], r["generated"], r["depth"], r["wall_s"]))
+        # the exhaustive TLC runs on the specification do not depend on the real-code run: they go on in a second
+        # thread while the scenarios are generated, run and validated, and are joined before the verdict
+        import threading
+        mc_out = {"lines": [], "err": None, "states": 0, "trans": 0}
+
+        def model_check():
+            try:
+                mwork = vlib.scratch(prop + "-mc")
+                for c in ([] if os.environ.get("VERIF_ALPH_NOMC") else mcs):      # developer switch for mutation self-tests only
+                    cfg = "MC_AlphWatcher_%s.cfg" % c
+                    r = vlib.tlc(mwork, "MC_AlphWatcher", cfg, workers=max(4, vlib.NCPU - 4), timeout=3000, heap="24g")
+                    if not r["ok"] and r["rc"] in (137, 143) and not r["violated"]:
+                        r = vlib.tlc(mwork, "MC_AlphWatcher", cfg, workers=max(4, vlib.NCPU - 4), timeout=3000, heap="24g")
+                    if not r["ok"]:
+                        raise vlib.Broken("TLC did not accept the specification MC_AlphWatcher/%s (spec-level problem, not a code "
+                                          "violation):\n%s" % (cfg, "\n".join(r["out"].splitlines()[-60:])))
+                    mc_out["states"] += r["distinct"]
+                    mc_out["trans"] += r["generated"]
+                    mc_out["lines"].append("TLC %s: %d distinct states, %d transitions, depth %d, %.0fs"
+                                           % (cfg, r["distinct"], r["generated"], r["depth"], r["wall_s"]))
+            except BaseException as e:      # re-raised in the main thread
+                mc_out["err"] = e
+
+        mc_thread = threading.Thread(target=model_check)
+        mc_thread.start()
         for prof, n, depth, ov in tlcs:
             scenarios += fa.tlc_scenarios(work, n, depth, seed, prof, ov)
         for fam, n in gens:
@@ -182,6 +196,13 @@ def run_watch(prop, tier, replay=None):
     rejs, r = fa.watch_validate(work, lines)
     print("trace validation: %d states, %.1fs, %d rejected scenario(s)" % (r["distinct"], r["wall_s"], len(rejs)))
 
+    if not replay:
+        mc_thread.join()
+        if mc_out["err"] is not None:
+            raise mc_out["err"]
+        mc_states, mc_trans = mc_out["states"], mc_out["trans"]
+        for x in mc_out["lines"]:
+            print(x)
     by_t = {}
     for ln in lines:
         by_t.setdefault(ln["t"], []).append(ln)
